@@ -9,6 +9,8 @@ Abstract inputs (small JSON):
       ['u', [item, ...]]                         unconnect; item = ['f', fid, name, owner] | ['o', obj]
       ['r'] reset   ['ss', bool] set_silent   ['en'] enter `with silent():`   ['ex'] leave the innermost block
       ['e', ev, snd, args, kw, single]           emit(event, sender, *args, **kw[, single=...]); single None|bool
+  kind 'histx': inp = {'ops': [...as 'hist'...], 'raise': [fid, ...]}: the callbacks with these ids raise after
+      recording the call; an emit is then observed as ['raise', calls made] when the exception propagated
   kind 'prog': inp = {'ops': [['inc'] | ['v', x] | ['m', x] | ['sc'] | ['rs', None|x], ...]}
 """
 import itertools
@@ -36,11 +38,13 @@ CLAUSES = {
     25: 'C19_dispatch_all: nothing is called while silenced (set_silent inside silent() blocks included)',
     26: 'C19_progress: completion announced exactly once per crossing',
     27: 'C19_progress_values: progress events / value / maximum follow the history',
+    28: 'C19_dispatch_raising: a raising callback ends the emit (calls = expected prefix up to it, exception propagated)',
 }
 TRUSTED = ['CPython function/bound-method identity and ==, contextlib.contextmanager (LIFO exit of with-blocks)']
 ASSUMES = ['silent() blocks are left normally and in LIFO order (a `with` statement); set_silent inside a block is '
            'covered (C19_dispatch_all)',
-           'callbacks do not raise and do not re-enter the emitter; unconnect items are never None',
+           'the statement is read for callbacks that do not raise (raising ones: C19_dispatch_raising, clause 28); '
+           'callbacks do not re-enter the emitter; unconnect items are never None',
            'reporter histories are not run while the emitter is silenced; values and maxima are integers']
 TIMEOUT = {'quick': 10, 'thorough': 20}
 
@@ -93,6 +97,10 @@ def _prog(ops):
     return {'kind': 'prog', 'inp': {'ops': list(ops)}}
 
 
+def _histx(ops, raisers):
+    return {'kind': 'histx', 'inp': {'ops': normalise(ops), 'raise': sorted(set(raisers))}}
+
+
 SMALL = [C(F0), C(F1, style=0, sf=0), C(F2, style=0, last=True), U(F0), U(0), R, EN, EX, SS(True), SS(False),
          E(0, 0, (7,)), E(0, 1, (1, 2), ((0, 3),), True)]
 
@@ -122,6 +130,42 @@ def _exhaustive_hist(maxlen):
             if not _wellbracketed(seq):
                 continue
             yield {'kind': 'hist', 'inp': {'ops': [list(o) for o in seq]}}
+
+
+RAISER_SETS = [[0], [1], [2], [0, 2]]
+
+
+XSMALL = [C(F0), C(F1, style=0), C(F2, style=0, last=True), U(F0), EN, EX, E(0, 0, (7,)), E(0, 0, (1,), (), True)]
+
+
+def _exhaustive_histx(maxlen):
+    """Connect-heavy 8-operation alphabet (no sender filters: several callbacks per emit) x raiser sets."""
+    for n in range(2, maxlen + 1):
+        for seq in itertools.product(XSMALL, repeat=n):
+            if seq[-1][0] != 'e' or not _wellbracketed(seq):
+                continue
+            fids = set(o[1] for o in seq if o[0] == 'c')
+            if not fids:
+                continue
+            for rs in RAISER_SETS:
+                if fids & set(rs):
+                    yield {'kind': 'histx', 'inp': {'ops': [list(o) for o in seq], 'raise': list(rs)}}
+
+
+def _rand_histx(rng, lo, hi):
+    ops = []
+    for _ in range(rng.randint(lo, hi)):
+        r = rng.random()
+        if r < 0.45:
+            ops.append(C(rng.choice(FUNCS), rng.choice([0, 0, 0, 1]), rng.choice([None, None, None, 0]),
+                         rng.random() < 0.35))
+        elif r < 0.75:
+            ops.append(E(0, rng.choice([0, 0, 1]), (7,), (), rng.choice([None, None, True])))
+        else:
+            ops.append(_rand_op(rng))
+    ops.append(E(0, 0, (7,), (), rng.choice([None, None, True])))
+    fids = sorted(set(o[1] for o in ops if o[0] == 'c')) or [0]
+    return _histx(ops, rng.sample(fids, min(len(fids), rng.choice([1, 1, 2]))))
 
 
 def _exhaustive_prog(alpha, maxlen):
@@ -212,6 +256,16 @@ def corpus():
     cs.append(_hist([C(F0), EN, SS(False), EN, e, SS(False), e, EX, e, EX, e]))    # nested, set_silent in both
     cs.append(_hist([C(F0), EN, EN, SS(False), EX, e, SS(False), e, EX, e]))       # inner block restores True
     cs.append(_hist([C(F0), SS(True), EN, EX, e, EN, SS(False), EX, e, SS(False), EN, SS(True), EX, e]))
+    # --- raising callbacks (stage 3) ---
+    cs.append(_histx([C(F0), C(F1, 0), C(F2, 0), e, e], [1]))            # F0 called, F1 raises, F2 never called
+    cs.append(_histx([C(F2, 0, None, True), C(F0), C(F1, 0), e], [0]))   # first raises: the 'last' one is not reached
+    cs.append(_histx([C(F2, 0, None, True), C(F0), C(F1, 0), e], [2]))   # 'last' raises after all others were called
+    cs.append(_histx([C(F0), C(F1, 0), E(0, 0, (7,), (), True)], [0]))   # single: the one call raises
+    cs.append(_histx([C(F0), C(F1, 0), E(0, 0, (7,), (), True), e], [1]))  # single: the raiser is not reached
+    cs.append(_histx([C(F0), SS(True), e, SS(False), EN, e, EX, e], [0]))  # silenced: no call, no exception
+    cs.append(_histx([C(F0, None, 1), C(F1, 0), e, E(0, 1)], [0]))       # raiser filtered out by sender
+    cs.append(_histx([C(F0), C(F1, 0), e, U(F0), e, C(F0), e, R, e], [0]))  # registry unchanged by a raising emit
+    cs.append(_histx([C(F3), C(F0), e, U(0), e], [3]))                   # raising bound method, unconnect by owner
     cs.append(_prog([['v', 0], ['v', 0], ['inc']]))                      # max 0: first update completes
     cs.append(_prog([['m', 2], ['inc'], ['inc'], ['inc'], ['v', 1], ['inc']]))
     cs.append(_prog([['m', 2], ['sc'], ['sc'], ['m', 3], ['sc'], ['m', 1], ['sc'], ['m', 1], ['inc']]))
@@ -228,17 +282,22 @@ def generate(tier, rng):
             cases.append(_rand_hist(rng, 2, 10))
         for _ in range(4000):
             cases.append(_rand_prog(rng, 2, 10))
+        for _ in range(3000):
+            cases.append(_rand_histx(rng, 2, 10))
         return cases
     quick = tier == 'quick'
     cases += list(_exhaustive_hist(4 if quick else 5))
     cases += list(_exhaustive_prog(PQUICK if quick else PSMALL, 4 if quick else 5))
     if quick:
         cases += list(_exhaustive_prog(PSMALL, 3))
+    cases += list(_exhaustive_histx(4 if quick else 5))
     nh, np_ = (6000, 3000) if quick else (60000, 30000)
     for _ in range(nh):
         cases.append(_rand_hist(rng, 2, 9 if quick else 12))
     for _ in range(np_):
         cases.append(_rand_prog(rng, 2, 9 if quick else 12))
+    for _ in range(nh // 4):
+        cases.append(_rand_histx(rng, 2, 9 if quick else 12))
     return cases
 
 
@@ -288,9 +347,14 @@ def _dec_kw(kwargs):
     return sorted(out)
 
 
+class _Boom(Exception):
+    """Raised by the callbacks of a 'histx' case that are listed in inp['raise']."""
+
+
 class _World(object):
-    def __init__(self, cfg):
+    def __init__(self, cfg, raisers=()):
         self.cfg = cfg
+        self.raisers = frozenset(raisers)
         self.log = []
         self.funcs = {}
         self.objs = {}
@@ -320,10 +384,13 @@ class _World(object):
             return self.funcs[key]
         log = self.log
         rec0 = [fid, name, owner]
+        boom = fid in self.raisers
         if owner is None:
             def body(sender, *args, **kwargs):
                 rec = rec0 + [_dec_sender(sender), [_dec_int(a) for a in args], _dec_kw(kwargs)]
                 log.append(rec)
+                if boom:
+                    raise _Boom(fid)
                 return ('res', rec)
             f = body
         else:
@@ -332,6 +399,8 @@ class _World(object):
             def body(self_, sender, *args, **kwargs):
                 rec = rec0 + [_dec_sender(sender), [_dec_int(a) for a in args], _dec_kw(kwargs)]
                 log.append(rec)
+                if boom:
+                    raise _Boom(fid)
                 return ('res', rec)
             f = types.MethodType(body, self.obj(owner, canonical=True))
         body.__name__ = ('on_ev%d' % name) if name is not None else ('cb%d' % fid)
@@ -394,7 +463,10 @@ class _World(object):
             if single is not None or self.cfg == 1:
                 kwargs['single'] = single
             n0 = len(self.log)
-            r = self.emit('ev%d' % evn, self.obj(snd), *args, **kwargs)
+            try:
+                r = self.emit('ev%d' % evn, self.obj(snd), *args, **kwargs)
+            except _Boom:
+                return ['raise', self.log[n0:]]
             calls = self.log[n0:]
             if r is None:
                 ret = ['none']
@@ -418,8 +490,8 @@ class _World(object):
             self.set_silent(False)
 
 
-def _run_hist(ops, cfg):
-    w = _World(cfg)
+def _run_hist(ops, cfg, raisers=()):
+    w = _World(cfg, raisers)
     out = []
     try:
         for o in ops:
@@ -486,6 +558,13 @@ def run_case(case):
             if r not in runs:
                 runs.append(r)
         return ('hist', runs)
+    if k == 'histx':
+        runs = []
+        for cfg in (0, 1):
+            r = _run_hist(i['ops'], cfg, i['raise'])
+            if r not in runs:
+                runs.append(r)
+        return ('histx', runs)
     if k == 'prog':
         return ('prog', _run_prog(i['ops']))
     raise ValueError(k)
@@ -558,6 +637,22 @@ def _oobs(x):
     raise ValueError(k)
 
 
+def _xobs(x):
+    k = x[0]
+    if k == 'n':
+        return '(Xb XNone)'
+    if k == 'err':
+        return '(Xb XError)'
+    if k == 'exc':
+        return 'XbExc'
+    if k == 'raise':
+        return '(Xb (XRaise %s))' % q.lst(x[1], _call)
+    if k == 'emit':
+        inner = _oobs(x)                      # '(Ob (OEmit calls r))'
+        return '(Xb (XEmit' + inner[len('(Ob (OEmit'):]
+    raise ValueError(k)
+
+
 def _pop(o):
     k = o[0]
     if k == 'inc':
@@ -587,6 +682,9 @@ def encode(case, obs):
     if k == 'hist':
         cin = q.app('InHist', q.lst(i['ops'], _op))
         cobs = 'ObsCrash' if crash else q.app('ObsHist', q.lst(obs[1], lambda run: q.lst(run, _oobs)))
+    elif k == 'histx':
+        cin = q.app('InHistX', q.lst(i['ops'], _op), q.zl(i['raise']))
+        cobs = 'ObsCrash' if crash else q.app('ObsHistX', q.lst(obs[1], lambda run: q.lst(run, _xobs)))
     elif k == 'prog':
         cin = q.app('InProg', q.lst(i['ops'], _pop))
         cobs = 'ObsCrash' if crash else q.app('ObsProg', q.lst(
@@ -601,6 +699,8 @@ def nontrivial(case, obs):
         return False
     if case['kind'] == 'hist':
         return any(x[0] == 'emit' and (x[1] or x[2][0] == 'none') for x in obs[1][0])
+    if case['kind'] == 'histx':
+        return any(x[0] == 'raise' for x in obs[1][0])
     return any(['c'] in x[0] for x in obs[1])
 
 
@@ -613,6 +713,13 @@ def dist(case, obs):
     out = ['kind=' + k, '%s.len=%s' % (k, _bucket(len(ops)))]
     if obs[0] == 'crash':
         out.append('crash=' + obs[1])
+        return out
+    if k == 'histx':
+        run = obs[1][0]
+        out.append('histx.raising_emits=%s' % _bucket(sum(1 for x in run if x[0] == 'raise')))
+        out.append('histx.max_calls_before_raise=%s' % _bucket(max([len(x[1]) - 1 for x in run if x[0] == 'raise'] or [0])))
+        if any(x[0] == 'emit' and x[1] for x in run):
+            out.append('histx.has_nonraising_emit_with_calls')
         return out
     if k == 'hist':
         d = md = 0
@@ -650,7 +757,14 @@ def size(case):
 
 def shrink(case):
     k, ops = case['kind'], case['inp']['ops']
-    mk = _hist if k == 'hist' else _prog
+    if k == 'histx':
+        rs = case['inp']['raise']
+        mk = lambda new: _histx(new, rs)
+        for j in range(len(rs)):
+            if len(rs) > 1:
+                yield _histx(ops, rs[:j] + rs[j + 1:])
+    else:
+        mk = _hist if k == 'hist' else _prog
     seen = set()
 
     def emit_(new):
@@ -729,5 +843,5 @@ def repro(case):
                   "# per operation: ['n'] | ['err'] (ValueError on connect by name) | ['emit', calls received, returned value];\n"
                   "# a call record is [func id, event in its name, owner, sender, args, kwargs]\n"
                   "for cfg in (0, 1):\n"
-                  "    for op, ob in zip(case['inp']['ops'], c19._run_hist(case['inp']['ops'], cfg)):\n"
+                  "    for op, ob in zip(case['inp']['ops'], c19._run_hist(case['inp']['ops'], cfg, case['inp'].get('raise', ()))):\n"
                   "        print(cfg, op, '->', ob)\n" % (case,))
